@@ -283,6 +283,9 @@ def _rand_intervals_fixed_n(
     starts = rng.randint(0, n_timepoints - min_length + 1, size=(n_intervals,))
     if max_length is None:
         max_length = n_timepoints - starts
+    else:
+        # an interval cannot extend beyond the end of the series
+        max_length = np.minimum(max_length, n_timepoints - starts)
     ends = rng.randint(starts + min_length, starts + max_length + 1)
     return np.column_stack([starts, ends])
 
